@@ -8,4 +8,11 @@ pub assume_specification [u32::div_ceil] (a: u32, b: u32) -> (r: u32)
     requires b != 0
     ensures r as int == (a as int + b as int - 1) / (b as int);
 
+// debug_assert_eq!(a, b) / assert_eq!(a, b) expand to a call of this diverging function on inequality: reaching it is a
+// proof obligation (requires false). Shared by l7_boxed_slices and l7_traits_monty.
+#[verifier::external_type_specification]
+pub struct ExAssertKind(core::panicking::AssertKind);
+pub assume_specification<T: ?Sized + core::fmt::Debug, U: ?Sized + core::fmt::Debug> [core::panicking::assert_failed::<T, U>] (kind: core::panicking::AssertKind, left: &T, right: &U, args: Option<core::fmt::Arguments<'_>>) -> !
+    requires false;
+
 } // verus!
